@@ -25,7 +25,9 @@
 (* Unavailable), "double" (failed exchange reported twice), "double_post"  *)
 (* (scenario step with a failing postprocessor reported twice), "id_local" *)
 (* (id counter per instance), "depth_off" (auto-tag takes depth+1          *)
-(* elements), "no_empty" (no __EMPTY__ tag).                               *)
+(* elements), "no_empty" (no __EMPTY__ tag), "stale_tag" (an untagged      *)
+(* grpc/json entry is reported under the tag of the entry before it: the   *)
+(* pooled ammo object decoded in place).                                   *)
 (***************************************************************************)
 EXTENDS Naturals, Sequences, FiniteSets, TLC
 
@@ -112,6 +114,16 @@ NoAuto == [enabled |-> FALSE, depth |-> 2, notagonly |-> TRUE]
 (*                                               steps = <<[name, pre, out, post, sleep]>>      *)
 (*   [kind |-> "grpcscn", name, steps]           grpc scenario gun;                             *)
 (*                                               steps = <<[tag, pre, status, post, want]>>     *)
+(*   [kind |-> "grpcfile", n, pattern]           ONE grpc/json file of n entries through ONE    *)
+(*                                               provider (passes 1, continueonerror) and the   *)
+(*                                               grpc gun, one instance: entry k is written as  *)
+(*                                               pattern[((k-1) % Len(pattern)) + 1] says - a   *)
+(*                                               tag, "" (the line has NO tag key), "!" (the    *)
+(*                                               line is not JSON).  The provider decodes into  *)
+(*                                               pooled ammo objects and has a queue of 128: a  *)
+(*                                               file longer than that is shot with recycled    *)
+(*                                               objects.  One sample per entry, in file order, *)
+(*                                               tagged with THAT entry's tag.                  *)
 (* A scenario step runs  preprocessor -> template -> exchange -> postprocessors (-> sleep):     *)
 (*   pre  "none" | "ok" | "fail" (preprocessor refers to a missing variable) | "tmplfail"       *)
 (*        (the request template cannot be rendered): with fail / tmplfail NO request is sent    *)
@@ -152,8 +164,19 @@ GrpcStepSample(name, st) ==
     LET tags == <<name \o "." \o st.tag>>
     IN  IF PreFails(st) THEN Sample(tags, 0, "zero") ELSE Sample(tags, GrpcCode(st.status), "zero")
 
+\* entry k of a grpc/json file case, and its one sample: the entry's own tag / __EMPTY__ when it has none / an
+\* undecodable line: nothing is sent, no status, no tag of its own
+FileElem(c, k) == c.pattern[((k - 1) % Len(c.pattern)) + 1]
+RECURSIVE PrevTag(_, _)
+PrevTag(c, k) == IF k < 1 THEN "" ELSE IF FileElem(c, k) \notin {"", "!"} THEN FileElem(c, k) ELSE PrevTag(c, k - 1)
+FileSample(c, k) ==
+    LET e == FileElem(c, k)
+        t == IF e = "" /\ Variant = "stale_tag" THEN PrevTag(c, k - 1) ELSE e
+    IN  IF e = "!" THEN Sample(Tags("", NoAuto, <<>>), 0, "any") ELSE Sample(Tags(t, NoAuto, <<>>), 200, "zero")
+
 Expected(c) ==
-    CASE c.kind = "http" ->
+    CASE c.kind = "grpcfile" -> [k \in 1..c.n |-> FileSample(c, k)]
+      [] c.kind = "http" ->
             LET s == HttpSample(c.out)
                 one == <<Sample(Tags("", NoAuto, <<>>), s.proto, NetOf(s.netzero))>>
             IN  IF Variant = "double" /\ Failed(c.out) THEN one \o one ELSE one
@@ -195,11 +218,15 @@ CancelSentOK(c, p, seen) == /\ seen \subseteq {c.steps[k] : k \in 1..p}
 
 \* cases for which the statement fixes the NUMBER of samples only
 CountOnly(c) == c.kind = "grpcbad" \/ IsCancel(c)
-ExpectedCount(c) == IF IsCancel(c) THEN Len(c.steps) ELSE IF CountOnly(c) THEN 1 ELSE Len(Expected(c))
+ExpectedCount(c) == IF IsCancel(c) THEN Len(c.steps) ELSE IF CountOnly(c) THEN 1 ELSE IF c.kind = "grpcfile" THEN c.n ELSE Len(Expected(c))
 
 (* Comparison of what the aggregator got (rep: <<[tags, proto, net]>>) with Expected(c).        *)
 \* the first tag of a scenario sample names scenario and step; plain guns: the whole tag list
-TagsMatch(c, got, want) == IF c.kind \in {"httpscn", "grpcscn"} THEN got # <<>> /\ got[1] = want[1] ELSE got = want
+\* grpc/json file: the statement says __EMPTY__ for an entry without a tag; the grpc gun leaves the tag empty (design/C10.md:
+\* recorded, not decided).  Decided here, one-sided: an untagged entry's sample carries NO tag of another entry
+TagsMatch(c, got, want) == IF c.kind \in {"httpscn", "grpcscn"} THEN got # <<>> /\ got[1] = want[1]
+                           ELSE IF c.kind = "grpcfile" THEN got = want \/ (want = <<"__EMPTY__">> /\ got \in {<<>>, <<"">>})
+                           ELSE got = want
 CountOK(c, rep) == IF IsCancel(c) THEN CancelTagsOK(c, rep) ELSE Len(rep) = ExpectedCount(c)
 ProtoOK(c, rep) == CountOnly(c) \/ \A k \in DOMAIN rep : k \in DOMAIN Expected(c) => rep[k].proto = Expected(c)[k].proto
 NetOK(c, rep)   == CountOnly(c) \/ \A k \in DOMAIN rep : k \in DOMAIN Expected(c) =>
@@ -273,7 +300,7 @@ Spec == Init /\ [][Next]_vars
 
 \* ---- properties ----
 \* requests a shot of case c fires / steps it executes (scenario), independently of Expected
-Fired(c) == IF c.kind \in {"httpscn", "grpcscn"} THEN Len(Executed(c)) ELSE 1
+Fired(c) == IF c.kind \in {"httpscn", "grpcscn"} THEN Len(Executed(c)) ELSE IF c.kind = "grpcfile" THEN c.n ELSE 1
 
 TypeOK == /\ \A i \in Inst : ph[i] \in {"idle", "armed", "shooting"}
           /\ \A i \in Inst : shots[i] \in 0..MaxShots
@@ -303,6 +330,10 @@ DocTable == <<200, 499, 500, 400, 504, 404, 409, 403, 429, 400, 409, 400, 501, 5
 GrpcTable == /\ DOMAIN ph = Inst
              /\ \A st \in 0..16 : GrpcCode(st) = DocTable[st + 1]
              /\ \A st \in {17, 99} : GrpcCode(st) = 500
+
+\* a grpc/json file: every entry's sample is tagged with that entry's own tag, __EMPTY__ when it has none
+FileTags == \A i \in Inst : cur[i].kind = "grpcfile" =>
+               \A k \in DOMAIN rep[i] : rep[i][k].tags = (IF FileElem(cur[i], k) \in {"", "!"} THEN <<"__EMPTY__">> ELSE <<FileElem(cur[i], k)>>)
 
 \* every sample carries a tag; the documented example of the auto-tag
 TagNeverEmpty == \A i \in Inst : \A k \in DOMAIN rep[i] : rep[i][k].tags # <<>>
